@@ -2,8 +2,12 @@ package main
 
 import (
 	"fmt"
+	"math/big"
 	"os"
 )
+
+func newBig(s string) (*big.Int, bool) { return new(big.Int).SetString(s, 10) }
+func bigInt(v int64) *big.Int          { return big.NewInt(v) }
 
 // pair of operands for a binary operation
 func (g *G) pair() (dec, dec) {
@@ -111,7 +115,172 @@ func propC04(g *G, n int) {
 	}
 }
 
+// dp relative to the operand's own exponent and digit count, plus extremes
+func (g *G) dpFor(x dec) int64 {
+	_, c, e, sp := decode(x)
+	if sp || g.chance(0.15) {
+		return g.i64()
+	}
+	ue := int64(e - 6176)
+	nd := int64(len(c.String()))
+	switch g.pick(6) {
+	case 0:
+		return -ue - int64(g.pick(int(nd)+2))
+	case 1:
+		return -ue - nd + int64(g.pick(5)) - 2
+	case 2:
+		return -ue + int64(g.pick(5)) - 2
+	case 3:
+		return -ue - int64(g.pick(40))
+	case 4:
+		return int64(g.pick(81) - 40)
+	}
+	return -ue - nd - int64(g.pick(4))
+}
+
+func propC08(g *G, n int) {
+	for i := 0; i < n; i++ {
+		x := g.decimal()
+		if g.chance(0.3) {
+			// values near the top of the exponent range (quantum above Emax)
+			lo, hi := encodeDec(g.chance(0.5), g.coef(), 12287-g.pick(45))
+			x = dec{lo, hi}
+		}
+		dp := sI64(g.dpFor(x))
+		emit(0, "Decimal.Round", []string{x.String(), dp, sU64(uint64(g.mode()))})
+		emit(0, "Decimal.Ceil", []string{x.String(), dp})
+		emit(0, "Decimal.Floor", []string{x.String(), dp})
+		if i%4 == 0 {
+			// integers-ish operands for the package functions
+			lo, hi := encodeDec(g.chance(0.5), g.coef(), 6176-g.pick(40))
+			y := dec{lo, hi}
+			for _, op := range []string{"Round", "Trunc", "Ceil", "Floor"} {
+				emit(0, op, []string{y.String()})
+				emit(0, op, []string{x.String()})
+			}
+		}
+	}
+}
+
+func propC10(g *G, n int) {
+	bounds := []string{"9223372036854775807", "9223372036854775808", "18446744073709551615", "18446744073709551616", "2147483647", "2147483648", "4294967295", "4294967296", "0", "1"}
+	for i := 0; i < n; i++ {
+		var x dec
+		switch g.pick(4) {
+		case 0:
+			x = g.decimal()
+		case 1: // near a type bound, with a fraction
+			b, _ := newBig(bounds[g.pick(len(bounds))])
+			k := g.pick(16)
+			b.Mul(b, pow10(k))
+			b.Add(b, bigInt(int64(g.pick(3)-1)))
+			if g.chance(0.5) && k > 0 {
+				b.Add(b, bigInt(int64(g.pick(1000)-500)))
+			}
+			if b.Sign() < 0 {
+				b.Neg(b)
+			}
+			if b.Cmp(cmax) > 0 {
+				b.Set(cmax)
+			}
+			lo, hi := encodeDec(g.chance(0.5), b, 6176-k)
+			x = dec{lo, hi}
+		case 2: // small integers and fractions below one
+			lo, hi := encodeDec(g.chance(0.5), g.coef(), 6176-g.pick(45))
+			x = dec{lo, hi}
+		default:
+			lo, hi := encodeDec(g.chance(0.5), g.coef(), 6176+g.pick(30)-5)
+			x = dec{lo, hi}
+		}
+		for _, op := range []string{"Decimal.Int64_", "Decimal.Int32_", "Decimal.Uint64", "Decimal.Uint32"} {
+			emit(0, op, []string{x.String()})
+		}
+		if i%4 == 0 {
+			v := g.i64()
+			emit(0, "FromInt64", []string{sI64(v)})
+			emit(0, "FromInt32", []string{sI64(int64(int32(v)))})
+			emit(0, "FromUint64", []string{sU64(uint64(v))})
+			emit(0, "FromUint32", []string{sU64(uint64(uint32(v)))})
+		}
+	}
+}
+
+func propC11(g *G, n int) {
+	for i := 0; i < n; i++ {
+		sig := g.i64()
+		var e int64
+		switch g.pick(5) {
+		case 0:
+			e = int64(-6176 - g.pick(45) + 5)
+		case 1:
+			e = int64(6111 + g.pick(45) - 40)
+		case 2:
+			e = int64(g.pick(14001) - 7000)
+		default:
+			e = g.i64()
+		}
+		emit(g.drm(), "New", []string{sI64(sig), sI64(e)})
+		x := g.decimal()
+		_, c, be, sp := decode(x)
+		var le int64
+		if sp {
+			le = g.i64()
+		} else {
+			ue := int64(be - 6176)
+			nd := int64(len(c.String()))
+			switch g.pick(5) {
+			case 0: // result lands near the bottom of the range
+				le = -6176 - ue - nd + int64(g.pick(8)) - 4
+			case 1:
+				le = -6176 - ue + int64(g.pick(8)) - 4
+			case 2: // near the top
+				le = 6111 - ue + int64(g.pick(45)) - 5
+			case 3:
+				le = int64(g.pick(41) - 20)
+			default:
+				le = g.i64()
+			}
+		}
+		emit(g.drm(), "Ldexp", []string{x.String(), sI64(le)})
+		emit(0, "Frexp", []string{x.String()})
+	}
+}
+
+func propC12(g *G, n int) {
+	for i := 0; i < n; i++ {
+		x := g.decimal()
+		res := emit(0, "Decimal.MarshalBinary", []string{x.String()})
+		recv := g.decimal()
+		if len(res) == 2 {
+			emit(0, "Decimal.UnmarshalBinary", []string{recv.String(), res[0]})
+		}
+		if i%3 == 0 {
+			b := make([]byte, g.pick(65))
+			g.r.Read(b)
+			if g.chance(0.5) {
+				b = make([]byte, 16)
+				g.r.Read(b)
+			}
+			emit(0, "Decimal.UnmarshalBinary", []string{recv.String(), sBytes(b)})
+		}
+	}
+}
+
+func propC19canon(g *G, n int) {
+	for i := 0; i < n; i++ {
+		x := g.decimal()
+		for _, m := range cohort(x) {
+			emit(0, "Decimal.Canonical", []string{m.String()})
+		}
+	}
+}
+
 var props = map[string]func(*G, int){
+	"C08": propC08,
+	"C10": propC10,
+	"C11": propC11,
+	"C12": propC12,
+	"C19": propC19canon,
 	"C01": propC01,
 	"C02": propC02,
 	"C03": propC03,
@@ -127,4 +296,4 @@ func propMode(g *G, prop string, n int) {
 	f(g, n)
 }
 
-func apiCall(drm uint8, op string, args []string) {}
+
